@@ -51,6 +51,21 @@ static int *g_dec; static int g_ndec, g_dec_cap, g_dec_pos; static int g_replay;
 static uint64_t g_dec_hash = 1469598103934665603ULL;
 static int g_pct_prio[MAXT]; static long g_pct_change[8]; static int g_pct_nchange;
 
+/* "slow machine" decisions: at a scheduling point the virtual clock may move forward a little although threads are runnable */
+static int g_stall_permille; static int64_t g_stall_max_us; static uint64_t g_rng2[2]; static long g_stalls; static int64_t g_stall_total_us;
+int sched_idle_jump = 0;   /* set while advance_to() is called because nothing is runnable */
+static uint64_t rnd2(void) {
+  uint64_t s1 = g_rng2[0], s0 = g_rng2[1];
+  g_rng2[0] = s0; s1 ^= s1 << 23;
+  g_rng2[1] = s1 ^ s0 ^ (s1 >> 17) ^ (s0 >> 26);
+  return g_rng2[1] + s0;
+}
+void sched_set_stall(int permille, int64_t max_us) { g_stall_permille = permille; g_stall_max_us = max_us > 0 ? max_us : 1; }
+long sched_stalls(void) { return g_stalls; }
+int64_t sched_stall_total_us(void) { return g_stall_total_us; }
+int64_t sched_thread_deadline(int tid) { return tid >= 0 && tid < nT ? T[tid].deadline : -1; }
+int sched_thread_is_lib(int tid) { return tid >= 0 && tid < nT ? T[tid].is_lib : 0; }
+
 int (*sched_thread_create_fault)(void) = 0;
 int64_t (*sched_realtime_off)(void) = 0;
 
@@ -98,6 +113,9 @@ void sched_init(uint64_t seed, int policy, int preempt_permille, const struct sc
   OPS = *ops;
   g_rng[0] = seed * 0x9E3779B97F4A7C15ULL + 1; g_rng[1] = seed ^ 0xD1B54A32D192ED03ULL;
   for (int i = 0; i < 8; i++) rnd();
+  g_rng2[0] = seed * 0xD6E8FEB86659FD93ULL + 7; g_rng2[1] = seed ^ 0xA0761D6478BD642FULL;
+  for (int i = 0; i < 8; i++) rnd2();
+  g_stalls = 0; g_stall_total_us = 0;
   g_policy = policy; g_preempt = preempt_permille;
   g_steps = 0; g_switches = 0; g_max_steps = max_steps;
   g_dec_cap = MAXD; g_dec = (int *)malloc(sizeof(int) * MAXD); g_ndec = 0; g_dec_pos = 0; g_replay = 0;
@@ -120,6 +138,12 @@ int sched_get_decisions(int *out, int cap) {
 /* choose next thread to run; called by the baton holder */
 static int choose(void) {
   int cand[MAXT]; int nc;
+  if (g_stall_permille > 0 && (int)(rnd2() % 1000) < g_stall_permille) {
+    /* the machine was slow: time passes although somebody could run */
+    int64_t d = 1 + (int64_t)(rnd2() % (uint64_t)g_stall_max_us);
+    g_stalls++; g_stall_total_us += d;
+    OPS.advance_to(OPS.now() + d);
+  }
   for (;;) {
     int64_t now = OPS.now();
     nc = 0;
@@ -138,7 +162,9 @@ static int choose(void) {
     for (int i = 0; i < nT; i++) if (T[i].state == ST_BLOCKED && T[i].deadline >= 0 && (tmin < 0 || T[i].deadline < tmin)) tmin = T[i].deadline;
     if (tmin < 0) { OPS.quiescent(); _exit(3); }
     if (tmin < now) tmin = now;
+    sched_idle_jump = 1;
     OPS.advance_to(tmin);
+    sched_idle_jump = 0;
   }
   if (++g_steps > g_max_steps) { OPS.too_many_steps(); _exit(3); }
   if (nc == 1) return cand[0];
